@@ -161,14 +161,19 @@ def one_run(case, res, sim):
         kinds = case["stack"]
         for kind in kinds:
             if kind == "Input":
-                c = ci.Input(in_stream=stream, keynames="bytes", sigint_event=opts.get("sigint_event", False),
-                             disable_terminal_start_stop=opts.get("disable_terminal_start_stop", False))
+                ikw = dict(sigint_event=opts.get("sigint_event", False), disable_terminal_start_stop=opts.get("disable_terminal_start_stop", False))
+                if len(case.get("body", [])) % 2:
+                    ikw = {k: v for k, v in ikw.items() if v}  # what equals the documented default (False) is left to the default
+                c = ci.Input(in_stream=stream, keynames="bytes", **ikw)
                 inputs.append(c)
             elif kind == "Fullscreen":
-                c = FullscreenWindow(out_stream=out, hide_cursor=opts.get("hide_cursor", True))
+                c = FullscreenWindow(out_stream=out) if opts.get("hide_cursor", True) and len(case.get("body", [])) % 2 else \
+                    FullscreenWindow(out_stream=out, hide_cursor=opts.get("hide_cursor", True))
             elif kind == "CursorAware":
-                c = CursorAwareWindow(out_stream=out, in_stream=ScriptedIn(term, pty), hide_cursor=opts.get("hide_cursor", True),
-                                      keep_last_line=opts.get("keep_last_line", False))
+                wkw = dict(hide_cursor=opts.get("hide_cursor", True), keep_last_line=opts.get("keep_last_line", False))
+                if len(case.get("body", [])) % 2:
+                    wkw = {k: v for k, v in wkw.items() if v != {"hide_cursor": True, "keep_last_line": False}[k]}
+                c = CursorAwareWindow(out_stream=out, in_stream=ScriptedIn(term, pty), **wkw)
             elif kind == "Cbreak":
                 c = Cbreak(stream)
             elif kind == "CbreakTermmode":
